@@ -169,8 +169,8 @@ def escape(ctx):
     r.check(pm.contains('_L.key_map = dict(zip(source_keys, target_keys))', da) and pm.contains('_L.key_map = dict(zip(target_keys, source_keys))', da),
             'key maps are new dictionaries built from the key lists', da, construct='xtuml.meta:MetaModel.define_association', key='key_map-copy',
             msg='define_association does not build fresh key_map dictionaries')
-    dc = repo.func('xtuml.meta:MetaModel.define_class')
-    r.check(pm.contains('_M = MetaClass(kind, self)', dc), 'every define_class creates a new MetaClass', dc, construct='xtuml.meta:MetaModel.define_class',
+    dc = repo.nfunc('xtuml.meta:MetaModel.define_class')
+    r.check(pm.contains('_M = MetaClass(%s, self)' % param_names(dc)[0], dc), 'every define_class creates a new MetaClass', dc, construct='xtuml.meta:MetaModel.define_class',
             key='new-metaclass', msg='define_class does not create a new MetaClass per call')
     aa = repo.func('xtuml.meta:MetaClass.append_attribute')
     r.check(pm.contains('_A = (name, type_name)', aa) and pm.contains('self.attributes.append(_A)', aa), 'attributes are stored as new immutable pairs', aa,
